@@ -246,10 +246,11 @@ type crRec struct {
 	notify chan struct{}
 	frozen bool
 	saved  map[common.Hash]bool // hashes with a hash->height entry (blocks saved with WriteBlock)
+	apps   map[uint64]bool      // heights with an app-hash entry
 }
 
 func crNewRec() *crRec {
-	return &crRec{notify: make(chan struct{}, 1), saved: map[common.Hash]bool{}}
+	return &crRec{notify: make(chan struct{}, 1), saved: map[common.Hash]bool{}, apps: map[uint64]bool{}}
 }
 
 // process-wide (one case per process): transactions per block hash (from the node's own block
@@ -320,6 +321,15 @@ func (r *crRec) addDB(ops []crOp) {
 		for _, op := range ops {
 			if !op.del && string(op.k) == "LastBlock" && !r.saved[common.BytesToHash(op.v)] {
 				w.aux = 1
+			}
+		}
+		for _, op := range ops {
+			if !op.del && len(op.k) == 10 && op.k[0] == 'a' && op.k[1] == 'h' {
+				h := crU64(op.k[2:])
+				if w.kind == "binfo" && r.apps[h] {
+					w.aux = 1 // an app hash for this height existed: the block is applied again
+				}
+				r.apps[h] = true
 			}
 		}
 		r.log = append(r.log, w)
@@ -547,10 +557,11 @@ func crImageDB(log []crWrite, n int) *memorydb.Database {
 // recording WAL around the real BaseWAL
 
 type crWAL struct {
-	inner *BaseWAL
-	rec   *crRec
-	path  string
-	raw   bool // true: do not record (after the code replaced the WAL itself)
+	inner   *BaseWAL
+	rec     *crRec
+	path    string
+	pending func() int // transactions pending in the pool (what a proposal block built now carries)
+	raw     bool       // true: do not record (after the code replaced the WAL itself)
 }
 
 func crWalMsgKind(m WALMessage) string {
@@ -649,6 +660,14 @@ func (w *crWAL) note(m WALMessage, sync bool) {
 		if mi, ok := m.(msgInfo); ok && mi.PeerID == "" {
 			if bp, ok := mi.Msg.(*BlockPartMessage); ok {
 				crNoteParts(bp)
+			}
+			if pm, ok := mi.Msg.(*ProposalMessage); ok && w.pending != nil {
+				// until its parts are seen, the proposed block is known by the pool content it was built from
+				crKnownMu.Lock()
+				if _, known := crBlockTxs[pm.Proposal.POLBlockID.Hash]; !known {
+					crBlockTxs[pm.Proposal.POLBlockID.Hash] = w.pending()
+				}
+				crKnownMu.Unlock()
 			}
 			a := crActed{at: len(r.log), end: end, durable: end <= r.walDur}
 			switch mm := mi.Msg.(type) {
@@ -864,6 +883,11 @@ func crStartNode(env *crEnv, mem *memorydb.Database, walBytes []byte, rec *crRec
 	}
 	nd.dir = dir
 	nd.db = &crDB{inner: mem, rec: rec}
+	for it := mem.NewIterator([]byte("ah"), nil); it.Next(); {
+		if k := it.Key(); len(k) == 10 {
+			rec.apps[crU64(k[2:])] = true
+		}
+	}
 	for it := mem.NewIterator([]byte("H"), nil); it.Next(); {
 		if k := it.Key(); len(k) == 33 {
 			rec.saved[common.BytesToHash(k[1:])] = true
@@ -959,6 +983,10 @@ func crStartNode(env *crEnv, mem *memorydb.Database, walBytes []byte, rec *crRec
 		w, err := crOpenWAL(ccfg, rec, logger)
 		if err != nil {
 			return err
+		}
+		w.pending = func() (n int) {
+			crGuard(func() { n = nd.txPool.PendingSize() })
+			return n
 		}
 		nd.wal = w
 		nd.cs.wal = w
